@@ -598,6 +598,12 @@ func contains(l []string, s string) bool {
 
 func oneLine(s string, max int) string {
 	s = strings.ReplaceAll(s, "\n", " | ")
+	s = strings.Map(func(r rune) rune {
+		if r < 0x20 || r == 0x7f {
+			return '?'
+		}
+		return r
+	}, s)
 	if len(s) > max {
 		s = s[:max] + "..."
 	}
